@@ -19,7 +19,7 @@ CONSTANTS
   Fixed = TRUE
   SampleK = 0
   SampleRoots = 0
-VIEW View
+VIEW GenView
 
 
 
